@@ -275,6 +275,15 @@ def c05(ctx):
         methods.update(h["methods"])
         for v in h["violations"]:
             ctx.violation("a derivation changed what an earlier value renders to", {"history": h["id"], "detail": v[:3000]})
+    # every recorded API call (statement builders, WITH builders, expression constructors and methods): receiver and
+    # arguments are dumped before and after the call, field by field incl. unexported ones and slice contents
+    live, tail, diffs = api_correspondence(ctx, 4000 if ctx.quick() else 40000)
+    for s_ in live:
+        ev += 1
+        if s_.get("mutated"):
+            ctx.violation("a call changed its receiver or an argument (compared field by field before / after)",
+                          {"prog": s_["prog"][-3000:], "call": f"{s_['rtype']} {s_['method']}", "changed": s_["mutated"].strip()})
+            break
     # the batch form and the JSON histories of C16 also continue the batch builder after End()
     ctx.cov["evaluations"] = ev
     ctx.cov["distinct_nontrivial"] = forks
@@ -283,7 +292,8 @@ def c05(ctx):
     ctx.cov["rule"] = (f"history trees of {steps} derivation steps: any live value (structured and type-directed bases, incl. the JSON "
                        "batch builder) is continued by a random method found by reflection, recent values and already continued "
                        "values preferred; after every call every live value is re-rendered and compared with its first rendering; "
-                       "evaluations = derivation steps, non-trivial = values continued at least twice (forks)")
+                       "evaluations = derivation steps, non-trivial = values continued at least twice (forks); in addition every "
+                       "recorded API call is checked to leave receiver and arguments unchanged (structural dump before / after)")
     ctx.cov["samples"] = [{"history": h["id"], "steps": h["steps"], "forks": h["forks"], "methods": h["methods"][:6]} for h in hist[:3]]
     ctx.assumptions.append("the lowering Go AST -> effect IR (coq/Meta/Lower.v) is the trusted reading of Go's slice / append / "
                            "value-copy semantics; it is conservative (unknown constructs are rejected)")
